@@ -1003,82 +1003,98 @@ impl<'a> CompilerState<'a> {
                 }
             })
             .map_infix(|lhs, op, rhs| {
+                // Propagate errors of the operands, and report results that do not fit
+                // into 32 bits instead of overflowing
+                let l = lhs?;
+                let r = rhs?;
+                let start = op.as_span().start();
+                let overflow = || self.syntax_error("Constant expression overflow", start);
                 let res = match op.as_rule() {
-                    Rule::mul => lhs.unwrap() * rhs.unwrap(),
+                    Rule::mul => l.checked_mul(r).ok_or_else(overflow)?,
                     Rule::div => {
-                        let d = rhs.unwrap();
-                        if d == 0 {
-                            let start = op.as_span().start();
+                        if r == 0 {
                             return Err(self.syntax_error("Division by zero", start));
                         }
-                        lhs.unwrap() / d
+                        l.checked_div(r).ok_or_else(overflow)?
                     }
-                    Rule::add => lhs.unwrap() + rhs.unwrap(),
-                    Rule::sub => lhs.unwrap() - rhs.unwrap(),
-                    Rule::and => lhs.unwrap() & rhs.unwrap(),
-                    Rule::or => lhs.unwrap() | rhs.unwrap(),
-                    Rule::xor => lhs.unwrap() ^ rhs.unwrap(),
-                    Rule::brs => lhs.unwrap() >> rhs.unwrap(),
-                    Rule::bls => lhs.unwrap() << rhs.unwrap(),
+                    Rule::add => l.checked_add(r).ok_or_else(overflow)?,
+                    Rule::sub => l.checked_sub(r).ok_or_else(overflow)?,
+                    Rule::and => l & r,
+                    Rule::or => l | r,
+                    Rule::xor => l ^ r,
+                    Rule::brs => {
+                        if !(0..32).contains(&r) {
+                            return Err(overflow());
+                        }
+                        l >> r
+                    }
+                    Rule::bls => {
+                        if !(0..32).contains(&r) {
+                            return Err(overflow());
+                        }
+                        let wide = (l as i64) << r;
+                        if wide < i32::MIN as i64 || wide > i32::MAX as i64 {
+                            return Err(overflow());
+                        }
+                        wide as i32
+                    }
                     Rule::land => {
-                        if lhs.unwrap() != 0 && rhs.unwrap() != 0 {
+                        if l != 0 && r != 0 {
                             1
                         } else {
                             0
                         }
                     }
                     Rule::lor => {
-                        if lhs.unwrap() != 0 || rhs.unwrap() != 0 {
+                        if l != 0 || r != 0 {
                             1
                         } else {
                             0
                         }
                     }
                     Rule::gt => {
-                        if lhs.unwrap() > rhs.unwrap() {
+                        if l > r {
                             1
                         } else {
                             0
                         }
                     }
                     Rule::gte => {
-                        if lhs.unwrap() >= rhs.unwrap() {
+                        if l >= r {
                             1
                         } else {
                             0
                         }
                     }
                     Rule::lt => {
-                        if lhs.unwrap() < rhs.unwrap() {
+                        if l < r {
                             1
                         } else {
                             0
                         }
                     }
                     Rule::lte => {
-                        if lhs.unwrap() <= rhs.unwrap() {
+                        if l <= r {
                             1
                         } else {
                             0
                         }
                     }
                     Rule::eq => {
-                        if lhs.unwrap() == rhs.unwrap() {
+                        if l == r {
                             1
                         } else {
                             0
                         }
                     }
                     Rule::neq => {
-                        if lhs.unwrap() != rhs.unwrap() {
+                        if l != r {
                             1
                         } else {
                             0
                         }
                     }
                     Rule::ternary_cond1 => {
-                        let l = lhs.unwrap();
-                        let r = rhs.unwrap();
                         debug!("t1: left: {} right: {}", l, r);
                         if l != 0 {
                             r
@@ -1087,8 +1103,6 @@ impl<'a> CompilerState<'a> {
                         }
                     }
                     Rule::ternary_cond2 => {
-                        let l = lhs.unwrap();
-                        let r = rhs.unwrap();
                         debug!("t2: left: {} right: {}", l, r);
                         if l == 0x7eaddead {
                             r
@@ -1101,7 +1115,9 @@ impl<'a> CompilerState<'a> {
                 Ok(res)
             })
             .map_prefix(|op, rhs| match op.as_rule() {
-                Rule::neg => Ok(-rhs?),
+                Rule::neg => rhs?.checked_neg().ok_or_else(|| {
+                    self.syntax_error("Constant expression overflow", op.as_span().start())
+                }),
                 Rule::not => Ok(if rhs? == 0 { 1 } else { 0 }),
                 Rule::bnot => Ok(!rhs?),
                 _ => unreachable!(),
